@@ -23,7 +23,7 @@ import (
 func c16Pool(e *Env) {
 	r := e.R
 	types := e.Types()
-	steps := e.N(60, 1500)
+	steps := e.N(60, 8000)
 	acc := newFeatAcc()
 	e.Par(len(types), func(i int) {
 		t := types[i]
